@@ -143,6 +143,19 @@ let do_rs args =
     String.concat " " (toks @ [e; "CB" ^ String.concat "," (List.map (fun x -> string_of_int (int_of_nat x)) evs)])
   | _ -> "BADREQ"
 
+(* ---- stream pchk:  Q <k> <r> <N1> <seed> <g0> <fuel> *)
+let do_pchk args =
+  match args with
+  | [k; r; n1; seed; g0; fuel] ->
+    (match pchk (nat_of_int (int_of_string fuel)) (nat_of_int (int_of_string k)) (nat_of_int (int_of_string r)) (nat_of_int (int_of_string n1))
+             (z_of_string seed) (z_of_string g0) with
+     | None -> "R NONE"
+     | Some ((m, extra), g) ->
+       Printf.sprintf "R H%d,%d:%s X%d G%s" (int_of_nat m.nr) (int_of_nat m.nc)
+         (String.concat "/" (List.map (fun l -> String.concat "," (List.map (fun x -> string_of_int (int_of_nat x)) l)) m.rws0))
+         (if extra then 1 else 0) (string_of_z g))
+  | _ -> "R BADREQ"
+
 let () =
   try
     while true do
@@ -155,6 +168,7 @@ let () =
       | "I" :: args -> print_endline (do_it args)
       | "M" :: args -> print_endline (do_sparse args)
       | "R" :: args -> print_endline (do_rs args)
+      | "Q" :: args -> print_endline (do_pchk args)
       | _ -> print_endline "BADREQ"
     done
   with End_of_file -> ()
